@@ -222,11 +222,26 @@ def regen():
 
 # ------------------------------------------------------------------ arrays
 
+def expand_vals(vals, in_name, n):
+    """`vals` is the explicit list, or (long arrays) the compact spec {'lcg': [a, c, m, lo]}: component number j
+    (element-major) is lo + (a*j + c) % m - an int for integer dtypes, a bit pattern per component otherwise."""
+    if not isinstance(vals, dict):
+        return vals
+    a, c, m, lo = vals['lcg']
+    kind, cw, k = comp_layout(in_name)
+    j = np.arange(n * k, dtype=np.int64)
+    flat = (lo + (a * j + c) % m).tolist()
+    if kind in 'iu':
+        return flat
+    return [flat[i * k:(i + 1) * k] for i in range(n)]
+
+
 def base_array(in_name, shape, vals):
     """logical array (C-contiguous) of the input dtype from the JSON values.
     ints: Python ints; f2/f4/f8/c8/c16/rgb/rgba: component bit patterns; f16/c32: f8/c16 patterns, upcast."""
     kind, cw, k = comp_layout(in_name)
     n = int(np.prod(shape, dtype=object)) if len(shape) else 1
+    vals = expand_vals(vals, {'f16': 'f8', 'c32': 'c16'}.get(in_name, in_name), n)
     if kind in 'iu':
         a = np.array([int(v) for v in vals], dtype=object).astype(np_dtype(in_name)) if n else np.zeros(0, np_dtype(in_name))
         return a.reshape(shape)
